@@ -250,6 +250,12 @@ func (w *writer) WriteHeader(code int) {
 	if code < 100 || code > 999 {
 		panic(fmt.Sprintf("invalid WriteHeader code %v", code))
 	}
+	// Like net/http, informational codes (1xx except 101 Switching Protocols)
+	// do not fix the status of the final response. fasthttp cannot send
+	// interim responses, so they are dropped.
+	if code >= 100 && code <= 199 && code != http.StatusSwitchingProtocols {
+		return
+	}
 	w.statusCode.CompareAndSwap(0, int64(code))
 }
 
